@@ -72,7 +72,9 @@ def loop_scans(R, ctx, rid, names=None):
         if not nexts:
             # the same quantifier written with the iterator adaptor: `coll.iter().any(|x| P(x))` / `.all(|x| P(x))`
             adaptor = "any" if q == "exists" else "all"
-            hosts = [c for c in fn.calls() if F.strip_generics(c.name).endswith("::" + adaptor) and len(c.args) == 2]
+            # `find(..).is_some()` / `position(..).is_some()` are `any` spelt differently
+            names = ("any", "find", "position") if q == "exists" else ("all",)
+            hosts = [c for c in fn.calls() if F.strip_generics(c.name).rsplit("::", 1)[-1] in names and len(c.args) == 2]
             done = False
             for h in hosts:
                 d = mir_def(fn, h.args[1])
@@ -87,6 +89,9 @@ def loop_scans(R, ctx, rid, names=None):
                 bad = _narrowing_calls(simp_deep(v.arg(h, 0, 14)))
                 ret = simp_deep(v.terms.local(0, 10))
                 is_answer = ret[0] == "call" and len(ret) > 3 and ret[3] == h.bb
+                if not is_answer and ret[0] == "call" and ret[1].endswith("Option::is_some") and ret[2]:
+                    inner = simp_deep(ret[2][0])
+                    is_answer = inner[0] == "call" and len(inner) > 3 and inner[3] == h.bb
                 okh = (plain if want_plain else neg) and not bad and is_answer
                 n += 1
                 done = True
